@@ -75,6 +75,12 @@ func (c *Ctx) evalToUnicode(name string, dingbats bool) (res []int64, tables []s
 		return f.Signature.Recv() != nil && pointsTo(f.Signature.Recv().Type(), gm)
 	}
 	ev.oracle = errOracle
+	// package-level tables of constants that are only read (the names of the lists to consult, say)
+	// hold what their initialiser put there; sub-slices of them are slices of the table (ext_x10.go)
+	for k, v := range c.constGlobalsX10(fn.Pkg) {
+		ev.mem[k] = v
+	}
+	ev.composeSlices = true
 	ev.call = func(call ssa.CallInstruction, args []sv) (sv, bool) {
 		if call == nil {
 			return sv{}, false
